@@ -1,6 +1,6 @@
 """C02 - unshared mutation is in place: structural necessary conditions (static clauses)."""
 import re
-from .core import (CheckError, find_match, arm_region, pat_str, strip_ref, origins, only_when, pat_paths,
+from .core import (family_calls, family_bodies, CheckError, find_match, arm_region, pat_str, strip_ref, origins, only_when, pat_paths,
                    Registry, op_local)
 from .opassign import order_rule
 
@@ -142,7 +142,7 @@ def run(F, rep, tier):
             continue
         b = F.body(fn)
         mm = [c for c in b.calls if c.target.endswith('::make_mut') and 'Rc' in c.target or c.target.endswith('Arc::<T>::make_mut')]
-        mm = [c for c in b.calls if c.target.rsplit('::', 1)[-1] == 'make_mut']
+        mm = [c for c in family_calls(F, fn) if c.target.rsplit('::', 1)[-1] == 'make_mut']
         n3 += 1
         if not mm:
             rep.viol('R2.3', '%s|no-make_mut' % label, '%s no longer mutates through Rc::make_mut' % label, b.loc(0))
@@ -218,8 +218,8 @@ def run(F, rep, tier):
     for w in ('eval::set_index', 'eval::modify_existing_index', 'eval::modify_every_existing_index'):
         if not F.has_fn(w):
             continue
-        wb = F.body(w)
-        for c in wb.calls:
+        for c in [c_ for wb_ in family_bodies(F, w) if wb_.path == w or wb_.path not in ('eval::set_index', 'eval::modify_existing_index', 'eval::modify_every_existing_index') for c_ in wb_.calls]:
+            wb = c.body
             if not re.search(r'<core::(Obj|Seq) as std::clone::Clone>::clone$', c.target):
                 continue
             n27 += 1
@@ -229,7 +229,7 @@ def run(F, rep, tier):
                 rep.viol('R2.7', '%s|clone-of-element' % w, '%s clones an element it fetched from the container (%s) and works on the copy: the element then has two holders and every nested update copies it in full' % (w, fetched[0][1].rsplit('::', 2)[-2] + '::' + fetched[0][1].rsplit('::', 1)[-1]), c.loc())
             else:
                 rep.ok('R2.7', '%s clone of %s' % (w.rsplit('::', 1)[-1], sorted({str(o[1]) for o in og})), 'not an element of the container being modified')
-    rep.floor('R2.7', 'Obj clones in the walkers', n27, 4)
+    rep.floor('R2.7', 'Obj clones in the walkers', n27, 1)
     # ---------------- R2.6
     rep.rule('R2.6', 'no second handle while writing in place: the closures that write a variable through set_index (in assign, assign_every, '
              'assign_respecting_type, drop_lhs) never clone an Obj / Seq read from the cell they are about to write - a snapshot that is '
